@@ -149,7 +149,7 @@ func (g *c08Gen) file() c08Index {
 }
 
 func streamC08(h *H) {
-	n := h.N(150, 10000)
+	n := h.N(150, 2400)
 	for i := 0; i < n; i++ {
 		switch {
 		case i%5 == 3:
